@@ -847,6 +847,9 @@ class RangeEngine(Engine):
                 # a reference only re-borrowed from itself in the loop keeps pointing at the same object
                 continue
             v = ('sym', '%s.%s' % (tag, nm))
+            if re.match(r'core::(iter|slice::iter)::', ty) and old is not None:
+                # an iterator advanced by the loop: its position is unknown, what it iterates over is not
+                v = ('term', 'loopiter', [self.purify(old, s), C(s.nsym)])
             if ty in INT_W:
                 self.types[key(v)] = ty
             m_ = re.fullmatch(r"&(?:'\w+ )?(?:mut )?\[(\w+)\]", ty)
@@ -930,6 +933,34 @@ class RangeEngine(Engine):
         dv = lambda i: self._deref_val(args[i], s)
         sp = t['sp']
         nm = c.split('::')[-1]
+        # ---- std iterator contracts: slice.chunks_exact(n) yields sub-slices of exactly n elements; enumerate() pairs them with a counter
+        if nm == 'next' and re.search(r'ChunksExact<|Enumerate<', c):
+            itv = vshow(self.purify(dv(0), s))
+            mce = re.search(r'call:slice::chunks_exact\((.*?), (\d+)\)', itv)
+            if mce:
+                n_ = int(mce.group(2))
+                s.nsym += 1
+                k_ = s.nsym
+                atom = ('term', 'call:' + short(c), [self.purify(dv(0), s)])
+                outs_ = []
+                s2 = s.fork()
+                for val, st_ in ((1, s2), (0, s)):
+                    st_.decisions.append((('term', 'discr', [atom]), val, (fn['path'], sp['line'])))
+                    if not val:
+                        outs_.append((('adt', 'core::option::Option', 0, 'None', []), st_))
+                        continue
+                    chunk = ('sym', 'chunk#%d' % k_)
+                    self.arr_len[vshow(chunk)] = n_
+                    self.slice_elem[vshow(chunk)] = 'u8'
+                    if 'Enumerate<' in c:
+                        idx = ('sym', 'index#%d' % k_)
+                        self.types[key(idx)] = 'usize'
+                        pay = ('tuple', [idx, chunk])
+                    else:
+                        pay = chunk
+                    outs_.append((('adt', 'core::option::Option', 1, 'Some', [pay]), st_))
+                self.npaths += 1
+                return outs_
         # ---- slices ----------------------------------------------------------------------------------
         if INDEX_RX.search(c) or (tc in ('core::ops::index::Index::index', 'core::ops::index::IndexMut::index_mut') and
                                   re.match(r'<(\[|&|alloc::vec::Vec|core::ops)', c) is None and c not in self.p.fns and
